@@ -261,6 +261,19 @@ def run(pid, tier, seed, replay=None):
     hb_idx = list(range(len(execs)))
     if hb_n < len(execs):
         hb_idx = sorted(random.Random(seed).sample(hb_idx, hb_n))
+    if not replay and not quick:
+        # the HB monitor is one TLC run over the concatenated traces (~100 k lines / min): keep it inside a line budget
+        # (programs with idoff sweep 130 queues per steal and log thousands of atomics each); the rest is counted as unchecked
+        order = list(hb_idx)
+        random.Random(seed + 2).shuffle(order)
+        budget, keep = 900000, []
+        for i in order:
+            n = len(ec.hb_lines(execs[i]))
+            if n <= budget:
+                budget -= n
+                keep.append(i)
+        V.extra["hb_not_sampled"] = len(hb_idx) - len(keep)
+        hb_idx = sorted(keep)
     total_acc = 0
     l2_n = len(execs) if replay else ((8 if busy else 16) if quick else 400)
     l2_idx = sorted(random.Random(seed + 1).sample(range(len(execs)), min(l2_n, len(execs))))
